@@ -10,6 +10,10 @@ CHECKS = {
          "Every ordered endpoint pair on a 5x5 (thorough 6x6) lattice, zero-length included, against every half-step probe point and every other segment, in both operand orders, repeated under 5 exact float transforms (2^17, 2^-10, +-2^20 offsets, dyadic offset): raycast on/in, contains-point, collinear-point, intersects (exact + symmetric), contains-segment compared with integer orientation predicates. Complete enumeration, no sampling.",
          "Small-scope: all order types of (segment, point) and (segment, segment) configurations incl. 4 collinear points occur on a 5x5 lattice; coordinates outside the dyadic <=2^20 domain are not covered. Trusted: verif/mc/exact (two formulations cross-checked each run).",
          "DESIGN.md §3 C19"),
+ "C04": ("bounded exhaustive exploration of insert histories (all short sequences; layout families x sizes x <=1-2 displaced points) x query-rectangle grid x stop positions on the real index code vs brute force; cross-index differential on predicates",
+         "Every point sequence <=4 over 3x3 and <=3 over 4x4 (thorough <=5 / <=4) open and closed under {r-tree, quadtree} x MinPoints {1, n, n+1}; 11 layout families (cluster+far outlier, collinear, duplicates, zig-zag, spiral, comb, quadrant midlines, +-1.7e308, grid walk) x 25-29 sizes from 0 to 70,001 crossing the node-split (17, 33), depth-16 overflow and 1/2/4-byte item-encoding thresholds, each small size with one displaced point at every position x 9 (thorough 25) targets and (thorough) two displaced points for n=17,33; every query rectangle of a data-derived grid incl. infinite bounds and 1-ulp neighbours; every early-stop position (sparse for large n). Reported (index, segment) set must equal the definition exactly, once each. Then point/line/rect predicates of family rings and lines must agree across {none, r-tree, quadtree, default} and after Move. The index bytes are decoded to *measure* which encodings occurred (evidence: index_encodings_observed).",
+         "Coordinates of the families are the alphabet; layouts not in the families are not covered. Oracle is the definition itself (brute force over SegmentAt(i).Rect()).",
+         "DESIGN.md §3 C04"),
  "C18": ("bounded exhaustive exploration of the vertex-sequence construction tree on the real constructors vs an exact reference model",
          "Full construction tree of vertex sequences (length 0..5 over a 4x4 lattice and 0..6 over 3x3; thorough 0..6 / 0..7), nothing filtered, each node realised as closed ring, closed ring with repeated closing vertex, ring restarted at the next vertex and open series: convex flag, clockwise flag, segment count, every i-th segment and the bounding rectangle compared with the literal reading of the statement in exact integer arithmetic; direct invariance under closing-vertex repetition and rotation.",
          "Small scope: the flags depend only on orientation signs of consecutive triples and the sign of the shoelace sum; all sign patterns of <= 6-7 vertices incl. duplicates and collinear runs occur on the lattice. Trusted: verif/mc/exact.",
